@@ -6,7 +6,7 @@ import os
 import sys
 
 PROPS = {
-    'C01': 'vfamily', 'C02': 'vfamily', 'C15': 'vfamily', 'C14': 'c14', 'C06': 'c06', 'C10': 'c10', 'C03': 'c03', 'C04': 'c04', 'C05': 'c05', 'C18': 'c18', 'C11': 'c11', 'C13': 'c13', 'C09': 'c09', 'C12': 'c12', 'C17': 'c17', 'C16': 'c16', 'C07': 'c07',
+    'C01': 'vfamily', 'C02': 'vfamily', 'C15': 'vfamily', 'C14': 'c14', 'C06': 'c06', 'C10': 'c10', 'C03': 'c03', 'C04': 'c04', 'C05': 'c05', 'C18': 'c18', 'C11': 'c11', 'C13': 'c13', 'C09': 'c09', 'C12': 'c12', 'C17': 'c17', 'C16': 'c16', 'C07': 'c07', 'C08': 'c08',
 }
 
 
